@@ -146,8 +146,18 @@ func (c *ConnectorOrchestrator) Delete(ctx context.Context, id string) error {
 		return err
 	}
 	r.Append(func() error {
-		_, err = c.connectors.Create(ctx, id, conn.Type, conn.Plugin, conn.PipelineID, conn.Config, conn.ProvisionedBy)
-		return err
+		restored, err := c.connectors.Create(ctx, id, conn.Type, conn.Plugin, conn.PipelineID, conn.Config, conn.ProvisionedBy)
+		if err != nil {
+			return err
+		}
+		// Create builds a fresh instance: carry over what the deleted one had
+		// accumulated (most importantly the source position), otherwise a
+		// failed delete would silently reset the connector.
+		restored.State = conn.State
+		restored.LastActiveConfig = conn.LastActiveConfig
+		restored.CreatedAt = conn.CreatedAt
+		restored.UpdatedAt = conn.UpdatedAt
+		return nil
 	})
 	_, err = c.pipelines.RemoveConnector(ctx, pl.ID, id)
 	if err != nil {
@@ -198,13 +208,15 @@ func (c *ConnectorOrchestrator) Update(ctx context.Context, id string, plugin st
 		return nil, err
 	}
 
+	oldPlugin := conn.Plugin
 	oldConfig := conn.Config
 	conn, err = c.connectors.Update(ctx, id, plugin, config)
 	if err != nil {
 		return nil, err
 	}
 	r.Append(func() error {
-		_, err = c.connectors.Update(ctx, id, conn.Plugin, oldConfig)
+		// conn is the updated instance by now, its Plugin is the new one
+		_, err = c.connectors.Update(ctx, id, oldPlugin, oldConfig)
 		return err
 	})
 	err = txn.Commit()
